@@ -1,7 +1,8 @@
 """Doctests with by-construction outcomes (shared by C10 and C15)."""
 
 KINDS = ['pass', 'failout', 'failexc', 'allskip', 'partskip', 'expexc', 'disabled', 'comment',
-         'failcompile', 'faildirective', 'warnfail', 'warnpass', 'expexconly']
+         'failcompile', 'faildirective', 'warnfail', 'warnpass', 'expexconly',
+         'latecomment', 'latecommentfail', 'disabledlower', 'bracketskip']
 EXTRA_KINDS = ['ell', 'igws']      # outcome depends on a default directive (C15)
 
 # TR is replaced by a statement appending the doctest's name to a trace file
@@ -19,18 +20,32 @@ BODY = {
     'faildirective': ['>>> x = 1  # xdoctest: +REQUIRES(bogus)'],
     # every executed part ends in an accepted exception (nothing executes "normally")
     'expexconly': ['>>> 1/0', 'Traceback (most recent call last):', 'ZeroDivisionError: division by zero'],
+    # a comment that looks like a force-disable marker, but not on the first line: an ordinary doctest
+    'latecomment': ['TR', '>>> print("a")', 'a', '>>> # Script authors print the value', '>>> # disable nothing'],
+    'latecommentfail': ['TR', '>>> # slow_doctest is not meant here', '>>> # Failing is what this one does', '>>> 1/0'],
+    # the force-disable marker written in lower case
+    'disabledlower': ['>>> # disable_doctest', 'TR', '>>> 1/0'],
+    # a closed +SKIP ... -SKIP bracket around the only statement: nothing runs
+    'bracketskip': ['>>> # xdoctest: +SKIP', 'TR', '>>> 1/0', '>>> # xdoctest: -SKIP'],
     # a recorded run-time warning together with a failure / a pass
     'warnfail': ['TR', '>>> import warnings', '>>> warnings.warn("w-fail")', '>>> 1/0'],
     'warnpass': ['TR', '>>> import warnings', '>>> warnings.warn("w-pass")', '>>> print("a")', 'a'],
     'ell': ['TR', '>>> print("abcdef")', 'ab...f'],
     'igws': ['TR', '>>> print("a b")', 'ab'],
 }
-RUNS_TR = {'pass', 'failout', 'failexc', 'partskip', 'expexc', 'ell', 'igws', 'warnfail', 'warnpass'}
+DISABLED = ('disabled', 'disabledlower')
+RUNS_TR = {'pass', 'failout', 'failexc', 'partskip', 'expexc', 'ell', 'igws', 'warnfail', 'warnpass', 'latecomment',
+           'latecommentfail'}
+
+
+def fname(j):
+    """names are suffixes of each other on purpose (f, xf, xxf, ...): naming one doctest must select exactly it"""
+    return 'x' * j + 'f'
 
 
 def outcome(kind, opt=None, named=False):
     """expected outcome: passed / failed / skipped / disabled(absent natively, skipped in pytest)"""
-    if kind == 'disabled' and not named:
+    if kind in DISABLED and not named:
         return 'disabled'
     if kind == 'faildirective':
         # a malformed directive is diagnosed when the directives of the part are parsed, before SKIP is
@@ -38,9 +53,10 @@ def outcome(kind, opt=None, named=False):
         return 'failed'
     if opt == '+SKIP':
         return 'skipped'
-    if kind in ('allskip', 'comment'):
+    if kind in ('allskip', 'comment', 'bracketskip'):
         return 'skipped'
-    if kind in ('failout', 'failexc', 'disabled', 'failcompile', 'faildirective', 'warnfail'):
+    if kind in ('failout', 'failexc', 'disabled', 'disabledlower', 'failcompile', 'faildirective', 'warnfail',
+                'latecommentfail'):
         return 'failed'
     if kind == 'ell':
         return 'failed' if opt == '-ELLIPSIS' else 'passed'
@@ -53,7 +69,7 @@ def traces(kind, opt=None, named=False):
     """does the doctest execute its trace statement"""
     if opt == '+SKIP':
         return False
-    if kind == 'disabled':
+    if kind in DISABLED:
         return named
     return kind in RUNS_TR
 
@@ -61,8 +77,15 @@ def traces(kind, opt=None, named=False):
 def module_source(kinds, tracefile):
     src = []
     for j, kd in enumerate(kinds):
-        name = 'f%d' % j
+        name = fname(j)
         tr = ">>> _ = open(%r, 'a').write('%s;')" % (tracefile, name)
         body = [tr if l == 'TR' else l for l in BODY[kd]]
         src.append('def %s():\n    """\n    Example:\n%s\n    """\n' % (name, '\n'.join('        ' + l for l in body)))
     return '\n'.join(src)
+
+
+CLASSIC = ('failout', 'failexc', 'allskip', 'partskip', 'expexc', 'disabled', 'comment')
+
+
+def kind_cost(kind):
+    return 0 if kind == 'pass' else (1 if kind in CLASSIC else 2)
